@@ -39,6 +39,8 @@ type FuncContract struct {
 	ModifiesNothing bool
 	ModifiesAll bool
 	PanicsIf []*Clause
+	Assuming []*Clause // scope of the function's own proof; callers get `assuming ==> ensures`
+	Defines  []*Clause // definitions of abstract verdict predicates: assumed at call sites, never an obligation
 	Preserves []*Clause // with `modifies *`: locations proved untouched by a call-graph scan
 	Records  []*Clause // ghost assignments performed at return: records G := expr
 	Loops    map[int]*LoopSpec
@@ -106,10 +108,14 @@ func newContracts() *Contracts {
 	return &Contracts{Funcs: map[string]*FuncContract{}, Specs: map[string]*SpecDecl{}, Ghosts: map[string]*GhostDecl{}}
 }
 
-var declKeywords = map[string]bool{"func": true, "iface": true, "fnfield": true, "pred": true, "spec": true, "axiom": true,
+// classOverride: struct types (pkgname.Type) whose components belong to a class other than
+// their package's (e.g. per-call error objects are not part of the shared document).
+var classOverride = map[string]string{}
+
+var declKeywords = map[string]bool{"class": true, "func": true, "iface": true, "fnfield": true, "pred": true, "spec": true, "axiom": true,
 	"lemma": true, "ghost": true, "generate": true, "trusted": true}
 var clauseKeywords = map[string]bool{"requires": true, "ensures": true, "modifies": true, "panics_if": true, "loop": true,
-	"tag": true, "pure": true, "records": true, "preserves": true, "fresh": true, "reads": true, "option": true, "nosafety": true}
+	"tag": true, "pure": true, "records": true, "preserves": true, "defines": true, "assuming": true, "fresh": true, "reads": true, "option": true, "nosafety": true}
 
 type rawLine struct {
 	text string
@@ -197,7 +203,7 @@ func (cs *Contracts) loadContractFile(path, pkgPath string) error {
 				return fail("duplicate contract for %s", id)
 			}
 			cs.Funcs[id] = cur
-		case "requires", "ensures", "panics_if":
+		case "requires", "ensures", "panics_if", "defines", "assuming":
 			if cur == nil {
 				return fail("clause outside a func declaration")
 			}
@@ -227,6 +233,10 @@ func (cs *Contracts) loadContractFile(path, pkgPath string) error {
 				cur.Ensures = append(cur.Ensures, cl)
 			case "panics_if":
 				cur.PanicsIf = append(cur.PanicsIf, cl)
+			case "defines":
+				cur.Defines = append(cur.Defines, cl)
+			case "assuming":
+				cur.Assuming = append(cur.Assuming, cl)
 			}
 		case "preserves":
 			if cur == nil {
@@ -369,6 +379,15 @@ func (cs *Contracts) loadContractFile(path, pkgPath string) error {
 				return fail("%v", err)
 			}
 			cs.Ghosts[f[1]] = &GhostDecl{Name: f[1], Pkg: pkgPath, Ty: ty}
+		case "class":
+			cur = nil
+			f := strings.Fields(rest)
+			if len(f) < 2 {
+				return fail("expected: class <name> Type...")
+			}
+			for _, t := range f[1:] {
+				classOverride[strings.TrimSuffix(t, ",")] = f[0]
+			}
 		case "generate":
 			cur = nil
 			cs.Generate = append(cs.Generate, &GenerateDecl{Pkg: pkgPath, Args: strings.Fields(rest), File: l.file, Line: l.line})
